@@ -67,9 +67,9 @@ CLAIMED = {
    category="proof",
    design="6 C11"),
  "C19": dict(
-   text="Partial proof + exhaustive exploration of the stated range. Proved: the three table entries wrong at n=3 (C19_refuted_n3, kernel computation with the verified closure); for EVERY n the families over {I,X} (a0, b0, b1) generate exactly their own translates (C19_IX_families). Per run: all 28 families x n=3..6 (8 thorough): table entry and classifier answer vs invariants of the verified closure; n up to 12 (16): classifier vs table, all residues of n mod 8 and mod 6.",
-   note="'For every n>=3' for the other 25 families is the two-local classification (Wiersema et al.), not proved. Known findings (a11,3), (a12,3), (a17,3). No axioms.",
-   technique="Coq-verified closure oracle as judge over the enumerated range + kernel computation for the refutation",
+   text="Partial proof + exhaustive exploration of the stated range. Proved: the three table entries wrong at n=3 (C19_refuted_n3, kernel computation with the verified closure); for EVERY n the families over {I,X} (a0, b0, b1) generate exactly their own translates (C19_IX_families); for every n>=4 (a12, a17) resp. n>=3 (a18, a19, a21, a22) the families the table lists as su(2^n) generate exactly the 4^n-1 non-identity strings (C19_su_families: computed base case + one more qubit at a time, C19_full_from); their generator lists are compared with G_LIE on every run and from the bound on the theorem judges table and classifier at every n reached. Per run: all 28 families x n=3..6 (8 thorough): table entry and classifier answer vs invariants of the verified closure; n up to 12 (16): classifier vs table, all residues of n mod 8 and mod 6.",
+   note="'For every n>=3' for the remaining 19 families is the two-local classification (Wiersema et al.), not proved. Known findings (a11,3), (a12,3), (a17,3). No axioms.",
+   technique="Coq induction over the chain length for the su(2^n) families + Coq-verified closure oracle as judge over the enumerated range + kernel computation for the refutation",
    design="6 C19"),
  "C20": dict(
    text="Proof of closure/count preservation + exploration. Proved for every n: any sequence of the optimiser's moves (replace x by x.y for an anticommuting pair of current generators, i.e. an entry of list_connections) preserves the commutator closure and the number of generators, whatever the greedy/random choices (C20_contractions_preserve). Termination of the retry loop and distinctness of the output are explored: su(2^n) inputs (two-local families, even-k universal sets) at n=3..5 (6) under several random seeds with a watchdog, output judged by the verified closure.",
